@@ -18,8 +18,8 @@ EXTENDS Integers, Sequences, FiniteSets, TLC
 \*  4 surrogate pair + 1 (3 units)   5 2000 units of mixed content
 \*  6 Latin-1 beyond ASCII: every code unit below U+0100, some at or above U+0080 (6 units)
 \*  7 ends in a code unit whose low byte is zero (U+4E00), after U+0100 (3 units)
-TextLen == <<5, 0, 3, 3, 2000, 6, 3, 600, 4>>   \* text 8: surrogate pairs starting at units 127, 255, 511; text 9 ends in a pair
-Texts == 1..9
+TextLen == <<5, 0, 3, 3, 2000, 6, 3, 600, 4, 3>>   \* text 8: surrogate pairs starting at units 127, 255, 511; text 9 ends in a pair; text 10 begins with U+FEFF
+Texts == 1..10
 MinI(a, b) == IF a < b THEN a ELSE b
 
 Rec(lang, country, tid) == [lang |-> lang, country |-> country, tid |-> tid]
